@@ -45,6 +45,15 @@ def extend (v : CV) : List Nat → R (CV × Bool)
   | [] => .ok (v, true)
   | x :: xs => (v.pushInt x).bind fun r => if r.2 then extend r.1 xs else .ok (r.1, false)
 
+/-- `CompactVector::from_int(val, len, width)`: `none` = `Err`; the two `unwrap`s are panics if they fail -/
+def fromInt (val len width : Nat) : R (Option CV) :=
+  if ¬ (1 ≤ width ∧ width ≤ 64) then .ok none
+  else if decide (width < 64) && (val >>> width != 0) then .ok none
+  else match new width with
+    | none => .error .unwrapNone                                  -- `with_capacity(len, width).unwrap()`
+    | some v0 => (v0.extend (List.replicate len val)).bind fun r =>
+        if r.2 then .ok (some r.1) else .error .unwrapNone        -- `push_int(val).unwrap()`
+
 /-- `xs` is what the vector stores -/
 structure Rep (v : CV) (xs : List Nat) : Prop where
   len : v.len = xs.length
